@@ -1,8 +1,8 @@
 (* C09 - score thresholds gate what a peer may send and receive. Property theorems only.
-   (Peer-exchange record validation and the validation-overload gater are outside the model: see DESIGN.md.) *)
+   The gater, the dispatch under each AcceptFrom verdict and peer exchange are in Model/Gate.v. *)
 From Coq Require Import List ZArith Bool.
 Import ListNotations.
-From PS Require Import Model.Router Model.Gossip Proofs.RouterProofs Proofs.GossipProofs.
+From PS Require Import Model.Router Model.Gossip Model.Gate Proofs.RouterProofs Proofs.GossipProofs Proofs.GateProofs.
 Local Open Scope Z_scope.
 
 (* graylist: exactly the non-direct peers below the graylist threshold are rejected, and every RPC part
@@ -84,6 +84,35 @@ Theorem C09_heartbeat_prunes_negative_without_px : forall P sc s t evs s' gr pr 
   In p npx /\ In p pr /\ ~ In p (aget_l t (mesh s')).
 Proof. exact hb_prunes_negative_without_px. Qed.
 Print Assumptions C09_heartbeat_prunes_negative_without_px.
+
+(* the validation-overload gater only ever suppresses payload messages, never control traffic: it never answers
+   AcceptNone, and under either of its answers the control part (and the subscriptions) of the RPC are processed *)
+Theorem C09_gater_never_none : forall P g st coin, gater_accept P g st coin <> AcceptNone.
+Proof. exact gater_never_none. Qed.
+Theorem C09_gater_only_suppresses_payload : forall P g st coin,
+  p_control (dispatch (gater_accept P g st coin)) = true /\ p_subs (dispatch (gater_accept P g st coin)) = true.
+Proof. exact gater_only_suppresses_payload. Qed.
+Theorem C09_direct_accept_all : forall score gl gate, router_accept true score gl gate = AcceptAll.
+Proof. exact direct_accept_all. Qed.
+Theorem C09_graylisted_none : forall score gl gate, (score < gl)%Z -> router_accept false score gl gate = AcceptNone.
+Proof. exact graylisted_none. Qed.
+Theorem C09_not_graylisted_control_processed : forall score gl P g st coin,
+  (gl <= score)%Z -> p_control (dispatch (router_accept false score gl (Some (gater_accept P g st coin)))) = true.
+Proof. exact not_graylisted_control_processed. Qed.
+(* peer exchange: a record is followed only if the pruning peer is at or above the accept-PX threshold, the advertised
+   peer is not already connected, and the signed record - when there is one - is valid for the advertised id *)
+Theorem C09_px_only_if : forall score thr conn r,
+  px_followed score thr conn r = true -> (thr <= score)%Z /\ r <> PxInvalid /\ conn = false.
+Proof. exact px_only_if. Qed.
+(* a GRAFT from a peer with a negative score never admits it, and the PRUNE that refuses it carries no peer exchange;
+   the heartbeat's PRUNE of a negative-score mesh member carries none either *)
+Theorem C09_negative_graft_refused : forall doPX spx cands d o gs,
+  let '(pr, adm, px) := graft_reply doPX spx cands d true o gs in
+  forallb negb adm = true /\ (existsb (fun b => b) pr = true -> px = false).
+Proof. exact negative_graft_refused. Qed.
+Theorem C09_negative_hb_prune_no_px : forall doPX spx cands, hb_prune_px doPX spx cands true = false.
+Proof. exact negative_hb_prune_no_px. Qed.
+Print Assumptions C09_gater_only_suppresses_payload.
 
 (* ---- non-vacuity ---- *)
 Local Close Scope Z_scope.
